@@ -294,4 +294,188 @@ theorem mkUnion_only_verr (E : Ext) (env : Env) (cls tag : String) (x : PyVal) (
     · rw [h] at b; cases b
     · rw [h] at b; simp at b
 
+
+/-! ## 8. the validator the generator builds for a declared numeric type -/
+
+theorem validatorOf_int_bounds (cls : String) (mn mx : Option Int) (t : PTy)
+    (h : validatorOf (.int cls mn mx) = some t) :
+    ∃ dlo dhi, (cls, (dlo, dhi)) ∈ Tables.rtIntBounds ∧ t = .int {} cls (mn.getD dlo) (mx.getD dhi) := by
+  simp only [validatorOf, intDefaults, Option.map_map, Option.map_eq_some_iff] at h
+  obtain ⟨⟨c, dlo, dhi⟩, hfind, ht⟩ := h
+  have hmem := List.mem_of_find?_eq_some hfind
+  have hc := List.find?_some hfind
+  simp at hc
+  subst hc
+  exact ⟨dlo, dhi, hmem, ht.symm⟩
+
+theorem validatorOf_float_bounds (cls : String) (mn mx : Option FBits) (t : PTy)
+    (h : validatorOf (.float cls mn mx) = some t) :
+    ∃ dlo dhi, (cls, (dlo, dhi)) ∈ Tables.rtFloatBounds ∧
+      t = .float {} cls (mn.or dlo) (mx.or dhi) := by
+  simp only [validatorOf, floatDefaults, Option.map_map, Option.map_eq_some_iff] at h
+  obtain ⟨⟨c, dlo, dhi⟩, hfind, ht⟩ := h
+  have hmem := List.mem_of_find?_eq_some hfind
+  have hc := List.find?_some hfind
+  simp at hc
+  subst hc
+  refine ⟨dlo, dhi, hmem, ?_⟩
+  rw [← ht]
+  cases mn <;> cases mx <;> rfl
+
+/-- `Int32(min_value=a)` gives the runtime validator with exactly `[a, 2^31 - 1]` -/
+example (a : Int) : validatorOf (.int "Int32" (some a) none) = some (.int {} "Int32" a (2^31 - 1)) := by
+  simp [validatorOf, intDefaults, Tables.rtIntBounds]
+
+theorem satB_withFlags_prim (E : Ext) (env : Env) (t : PTy) (v : PyVal) (hp : isJsonPrimTy t = true)
+    (hn : t.flags.nullable = false) : satB E env (t.withFlags {}) v = satB E env t v := by
+  cases t <;> simp [isJsonPrimTy] at hp <;> simp only [PTy.flags] at hn <;>
+    simp [satB, PTy.withFlags, PTy.flags, hn] <;> cases v <;> simp [validPrim]
+
+theorem decode_primitive_ok (E : Ext) (env : Env) (perms : List String) (strict : Bool) (t : PTy) (j : JVal)
+    (hp : isJsonPrimTy t = true) (hn : t.flags.nullable = false) (v' : PyVal)
+    (h : validate E env (t.withFlags {}) (pyOfJson j) = .ok v') :
+    jsonCompatObjDecode E env perms strict t j = .ok (pyOfJson j) := by
+  cases t <;> simp [isJsonPrimTy] at hp <;> simp only [PTy.flags] at hn <;>
+    simp [jsonCompatObjDecode, makeStoneFriendly, PTy.flags, hn, h]
+
+theorem decode_primitive_err (E : Ext) (env : Env) (perms : List String) (strict : Bool) (t : PTy) (j : JVal)
+    (hp : isJsonPrimTy t = true) (hn : t.flags.nullable = false) (e : Err)
+    (h : validate E env (t.withFlags {}) (pyOfJson j) = .error e) :
+    jsonCompatObjDecode E env perms strict t j = .error e := by
+  cases t <;> simp [isJsonPrimTy] at hp <;> simp only [PTy.flags] at hn <;>
+    simp [jsonCompatObjDecode, makeStoneFriendly, PTy.flags, hn, h]
+
+/-- Decoding a JSON value at a (non-nullable) Boolean / integer / float / String type succeeds exactly
+when the parsed value satisfies the type; the result is the parsed value itself. -/
+theorem decode_primitive_iff (E : Ext) (env : Env) (perms : List String) (strict : Bool) (t : PTy) (j : JVal)
+    (hp : isJsonPrimTy t = true) (hn : t.flags.nullable = false) :
+    ((∃ v, jsonCompatObjDecode E env perms strict t j = .ok v) ↔ satB E env t (pyOfJson j) = true) ∧
+    (∀ v, jsonCompatObjDecode E env perms strict t j = .ok v → v = pyOfJson j) ∧
+    (∀ e, jsonCompatObjDecode E env perms strict t j ≠ .error (.crash e)) := by
+  rw [← satB_withFlags_prim E env t (pyOfJson j) hp hn]
+  rcases validate_spec E env (t.withFlags {}) (pyOfJson j) with ⟨a, b⟩ | ⟨a, b⟩
+  · rw [decode_primitive_ok E env perms strict t j hp hn _ b]
+    simp [a]
+  · obtain ⟨m, hm⟩ := b.exists
+    rw [decode_primitive_err E env perms strict t j hp hn _ hm]
+    simp [a]
+
+
+/-! ## Non-vacuity: a toy environment (one struct, one union) and a toy `Ext` -/
+
+/-- a toy `Ext` for the examples: floats are their own bit pattern ordered as naturals, nothing is
+NaN / inf, `float(n)` is `n` for naturals and overflows for negatives, a pattern matches only itself -/
+def exE : Ext where
+  fltLt a b := a < b
+  fltIsNan _ := false
+  fltIsInf _ := false
+  fltOfInt n := if 0 ≤ n then some n.toNat else none
+  patMatch p s := p == s
+  b64enc h := h
+  b64dec s := some (some s)
+  strftime _ _ := ""
+  strptime _ _ := none
+  md5 s := s
+  reSearch _ _ := none
+  strOfInt _ := ""
+  strOfFlt _ := ""
+
+def exS : StructDef where
+  cls := "ns.S"
+  levels := [{ cls := "ns.S", fields := [
+    { name := "n", ty := .int {} "Int32" (-5) 5, attrNullable := false, attrUserDefined := false, dflt := none, omitted := none },
+    { name := "x", ty := .float { nullable := true } "Float64" none (some 10), attrNullable := true, attrUserDefined := false, dflt := none, omitted := none },
+    { name := "u", ty := .union {} "ns.U", attrNullable := false, attrUserDefined := true, dflt := none, omitted := none },
+    { name := "l", ty := .list {} (.float {} "Float64" none none) none (some 2), attrNullable := false, attrUserDefined := false, dflt := none, omitted := none }] }]
+  subtypes := none
+  catchAll := false
+
+def exU : UnionDef where
+  cls := "ns.U"
+  levels := [{ cls := "ns.U", tags := [
+    { name := "v", ty := .void {}, omitted := none },
+    { name := "s", ty := .struct {} "ns.S", omitted := none },
+    { name := "k", ty := .str {} (some 1) (some 3) (some "ab"), omitted := none }] }]
+  catchAll := none
+
+def exEnv : Env := { structs := [exS], unions := [exU] }
+
+def exObj : PyVal := .struct "ns.S" [("n", .int 1), ("u", .union "ns.U" "v" .none), ("l", .list [])]
+
+
+example : exEnv.struct? "ns.S" = some exS ∧ exEnv.union? "ns.U" = some exU := ⟨rfl, rfl⟩
+
+-- 1–3: acceptance, refusal, normalisation
+example : satB exE exEnv (.struct {} "ns.S") exObj = true ∧                              -- all required fields readable
+          satB exE exEnv (.struct {} "ns.S") (.struct "ns.S" []) = false ∧              -- required field `n` unset
+          satB exE exEnv (.int {} "Int32" (-5) 5) (.int 6) = false ∧
+          satB exE exEnv (.int {} "Int32" (-5) 5) (.bool true) = true ∧                 -- Python's bool is an int
+          satB exE exEnv (.bool {}) (.int 1) = false ∧
+          satB exE exEnv (.float {} "Float64" none (some 10)) (.int (-1)) = false ∧     -- `float(n)` fails in the toy Ext
+          satB exE exEnv (.str {} (some 1) (some 3) (some "ab")) (.str "abc") = false ∧ -- whole-string pattern
+          satB exE exEnv (.list {} (.float {} "Float64" none none) none (some 2)) (.tuple [.int 1, .bool true]) = true ∧
+          satB exE exEnv (.list {} (.float {} "Float64" none none) none (some 2)) (.list [.flt 1, .flt 2, .flt 3]) = false ∧
+          satB exE exEnv (.map {} (.str {} none none none) (.int {} "Int32" 0 9)) (.dict [(.str "a", .int 3)]) = true ∧
+          satB exE exEnv (.map {} (.str {} none none none) (.int {} "Int32" 0 9)) (.dict [(.int 1, .int 3)]) = false ∧
+          satB exE exEnv (.union { nullable := true } "ns.U") .none = true ∧
+          satB exE exEnv (.union {} "ns.U") (.other "object") = false := by decide
+example : validate exE exEnv (.list {} (.float {} "Float64" none none) none (some 2)) (.tuple [.int 1, .bool true])
+            = .ok (.list [.flt 1, .flt 1]) := rfl
+example : validate exE exEnv (.int {} "Int32" (-5) 5) (.int 6) = verr "not within range" := rfl
+example : normOf exE (.map {} (.str {} none none none) (.list {} (.float {} "Float64" none none) none none))
+            (.dict [(.str "a", .tuple [.int 2])]) = .dict [(.str "a", .list [.flt 2])] := rfl
+
+-- 4: `validate_type_only`; the hypothesis of `validateTypeOnly_only_verr_of_user` is needed
+example : validateTypeOnly exEnv (.struct {} "ns.S") (.struct "ns.S" []) = .ok () ∧       -- fields are not looked at
+          validateTypeOnly exEnv (.union {} "ns.U") (.struct "ns.S" []) = verr "expected union type" ∧
+          validateTypeOnly exEnv (.int {} "Int32" 0 1) (.int 0) = crash "AttributeError" := ⟨rfl, rfl, rfl⟩
+
+-- 5–6: assignment and read-back through the three kinds of field
+example : (exS.field? "l").map (fun f => (f.name, f.attrNullable, f.attrUserDefined)) = some ("l", false, false) := rfl
+example : (setField exE exEnv exObj "l" (.tuple [.int 1, .bool true])).bind (getField exEnv · "l")
+            = .ok (.list [.flt 1, .flt 1]) := rfl
+example : (setField exE exEnv exObj "u" (.union "ns.U" "k" (.str "zzzz"))).bind (getField exEnv · "u")
+            = .ok (.union "ns.U" "k" (.str "zzzz")) := rfl                                -- by class only: the payload is not looked at
+example : setField exE exEnv exObj "u" (.other "object") = verr "expected union type" := rfl
+example : setField exE exEnv exObj "n" (.int 9) = verr "not within range" := rfl
+example : (setField exE exEnv (.struct "ns.S" [("x", .flt 3)]) "x" .none).bind (getField exEnv · "x") = .ok .none := rfl
+example : (setField exE exEnv exObj "x" (.int 7)).bind (getField exEnv · "x") = .ok (.flt 7) := rfl
+/-- `setField_only_verr` needs its hypothesis: a (never generated) field flagged `user_defined` with a
+primitive validator makes assignment crash. -/
+example : attrSet exE exEnv ⟨"z", .bool {}, false, true, none, none⟩ [] (.bool true) = crash "AttributeError" := rfl
+/-- `set_get` needs unique slot names for the *unset*: with a duplicated slot the second one shows through. -/
+example : (setField exE exEnv (.struct "ns.S" [("x", .flt 3), ("x", .flt 4)]) "x" .none).bind (getField exEnv · "x")
+            = .ok (.flt 4) := rfl
+
+-- the theorems instantiated: their hypotheses are satisfiable
+example : ∃ o', setField exE exEnv exObj "n" (.int 2) = .ok o' :=
+  (setField_iff exE exEnv "ns.S" _ "n" (.int 2) exS _ rfl rfl).2 (Or.inr (Or.inr ⟨rfl, by decide⟩))
+example : ¬ ∃ o', setField exE exEnv exObj "u" (.struct "ns.S" []) = .ok o' := by
+  intro h
+  have := (setField_iff exE exEnv "ns.S" _ "u" _ exS ⟨"u", .union {} "ns.U", false, true, none, none⟩ rfl rfl).1 h
+  simp [classSat, unionSat, PTy.flags] at this
+example : ∀ e, setField exE exEnv exObj "u" (.int 3) ≠ .error (.crash e) :=
+  setField_only_verr exE exEnv "ns.S" _ "u" (.int 3) exS _ rfl rfl (fun _ => rfl)
+example (o' : PyVal) (h : setField exE exEnv exObj "l" (.tuple [.int 1]) = .ok o') :
+    getField exEnv o' "l" = .ok (.list [.flt 1]) :=
+  set_get exE exEnv "ns.S" _ "l" _ o' exS _ rfl rfl (by decide) h
+example : ∃ o, mkUnion exE exEnv "ns.U" "k" (.str "ab") = .ok o :=
+  (mkUnion_iff exE exEnv "ns.U" "k" (.str "ab") exU rfl).2
+    ⟨.str {} (some 1) (some 3) (some "ab"), rfl, by simp [PTy.flags, isVoidT, isUserTy]; decide⟩
+
+-- 7: union construction
+example : mkUnion exE exEnv "ns.U" "v" .none = .ok (.union "ns.U" "v" .none) ∧
+          mkUnion exE exEnv "ns.U" "v" (.int 5) = verr "void member must have None value" ∧
+          mkUnion exE exEnv "ns.U" "nosuch" .none = verr "invalid tag" ∧
+          mkUnion exE exEnv "ns.U" "s" (.struct "ns.S" []) = .ok (.union "ns.U" "s" (.struct "ns.S" [])) ∧   -- class only
+          mkUnion exE exEnv "ns.U" "s" (.int 1) = verr "expected struct type" ∧
+          mkUnion exE exEnv "ns.U" "k" (.str "ab") = .ok (.union "ns.U" "k" (.str "ab")) ∧
+          mkUnion exE exEnv "ns.U" "k" (.str "abc") = verr "did not match pattern" := ⟨rfl, rfl, rfl, rfl, rfl, rfl, rfl⟩
+
+-- 9: top-level primitive decode; a JSON integer at a float type is accepted and returned as parsed
+example : jsonCompatObjDecode exE exEnv [] true (.int {} "Int32" (-5) 5) (.int 3) = .ok (.int 3) ∧
+          jsonCompatObjDecode exE exEnv [] true (.int {} "Int32" (-5) 5) (.int 7) = verr "not within range" ∧
+          jsonCompatObjDecode exE exEnv [] true (.int {} "Int32" (-5) 5) (.str "3") = verr "expected integer" ∧
+          jsonCompatObjDecode exE exEnv [] true (.float {} "Float64" none none) (.int 3) = .ok (.int 3) := ⟨rfl, rfl, rfl, rfl⟩
+
 end StoneVerif.C08
